@@ -870,9 +870,13 @@ impl<Upstream> ValidationContext<Upstream> {
                 return Ok((node, names));
             }
 
-            // Try to find the node in the cache.
+            // Try to find the node in the cache. An intermediate node has no
+            // keys, it cannot be used to validate the DS lookups for the names
+            // below it. In that case continue with the parent.
             if let Some(node) = self.cache_lookup(&curr).await {
-                return Ok((node, names));
+                if !node.intermediate() {
+                    return Ok((node, names));
+                }
             }
 
             names.push_front(curr.clone());
